@@ -3616,6 +3616,12 @@ impl Zeroconf {
 
         let now = current_time_millis();
         if !repeating {
+            // A new browse replaces an earlier one of the same type, together
+            // with its pending retransmission: one query schedule per type.
+            self.retransmissions.retain(
+                |rerun| !matches!(&rerun.command, Command::Browse(t, _, _, _) if t == &ty),
+            );
+
             // Binds a `listener` to querying mDNS domain type `ty`.
             //
             // If there is already a `listener`, it will be updated, i.e. overwritten.
@@ -3670,6 +3676,12 @@ impl Zeroconf {
             return;
         }
         if !repeating {
+            // A new search replaces an earlier one for the same host name,
+            // together with its pending retransmission.
+            self.retransmissions.retain(|rerun| {
+                !matches!(&rerun.command,
+                    Command::ResolveHostname(h, _, _, _) if h.to_lowercase() == hostname_key)
+            });
             self.add_hostname_resolver(hostname.to_owned(), listener.clone(), timeout);
             // if we already have the records in our cache, just send them
             self.query_cache_for_hostname(&hostname, listener.clone());
